@@ -1,4 +1,5 @@
 import PyIpmi.Props.C14
+#print axioms PyIpmi.Props.C14.source_shape
 #print axioms PyIpmi.Props.C14.inv_all_schedules
 #print axioms PyIpmi.Props.C14.monitor_accepts_all_schedules
 #print axioms PyIpmi.Props.C14.exchanges_not_interleaved
